@@ -545,6 +545,9 @@ func checkC18(c *Ctx, r *Report) {
 		})
 	}
 
-	// E. and no transmission happens outside the accounted operations (shared with C09, C04, C10, C13)
+	// E. and no transmission happens outside the accounted operations (shared with C09, C04, C10, C13),
+	// nor more than one per accounted Send: "retries = transmissions beyond the first" counts
+	// calls of Transport.Send
 	checkSendSites(c, r)
+	checkOneWriteOneRead(c, r)
 }
